@@ -267,23 +267,36 @@ class AppCfgMgr:
             for filename in glob.glob(os.path.join(self.tm_env.cache_dir, '*'))
         }
 
-        for container in configured:
+        # Several containers (generations) of one instance can be configured
+        # at the same time: look at where the links point, not only at their
+        # names, and visit the containers that are running first.
+        running = {
+            os.path.basename(self._resolve_running_link(link)): link
+            for link in glob.glob(os.path.join(self.tm_env.running_dir, '*'))
+            if os.path.islink(link)
+        }
+        in_cleanup = {
+            os.path.basename(self._resolve_running_link(link))
+            for link in glob.glob(os.path.join(self.tm_env.cleanup_dir, '*'))
+            if os.path.islink(link)
+        }
+
+        for container in sorted(configured, key=lambda c: c not in running):
             appname = appcfg.app_name(container)
-            if os.path.exists(os.path.join(self.tm_env.running_dir, appname)):
+            if os.path.basename(running.get(container, '')) == appname:
                 # App already running.. check if in cache.
                 # No need to check if needs cleanup as that is handled
                 if appname not in cached or cached[appname] != container:
                     self._terminate(appname)
                 else:
                     _LOGGER.info('Ignoring %s as it is running', appname)
+                    cached.pop(appname, None)
 
-                cached.pop(appname, None)
-
-            elif os.path.exists(os.path.join(self.tm_env.cleanup_dir,
-                                             appname)):
+            elif container in in_cleanup:
                 # Already in the process of being cleaned up
                 _LOGGER.info('Ignoring %s as it is in cleanup', appname)
-                cached.pop(appname, None)
+                if cached.get(appname) == container:
+                    cached.pop(appname, None)
 
             else:
                 needs_cleanup = True
@@ -303,8 +316,14 @@ class AppCfgMgr:
                     cached.pop(appname, None)
 
                 if needs_cleanup:
+                    cleanup_link = os.path.join(self.tm_env.cleanup_dir,
+                                                appname)
+                    if os.path.islink(cleanup_link):
+                        # Taken by another container of the same instance.
+                        cleanup_link = os.path.join(self.tm_env.cleanup_dir,
+                                                    container)
                     fs.symlink_safe(
-                        os.path.join(self.tm_env.cleanup_dir, appname),
+                        cleanup_link,
                         os.path.join(self.tm_env.apps_dir, container)
                     )
                     _LOGGER.debug('Removed %r', appname)
